@@ -11,6 +11,13 @@ parameters nothing has assigned yet become assigned at random steps (or never / 
 subsets of steps x parameters through Database.getHistory/getHistories, DatabaseInterface.getHistory/getHistories (timeSteps
 explicit and None) and HistoryTrackerInterface.getBlockHistoryVal (with and without preloadBlockHistoryVals) vs
 `SnapStore.writeP/dbHistory/dbiHistory/blockHistoryVal`; the absence of the dataset is verified on the file.
+Tie (1c) histories by location: five assemblies swapped / taken out / put back between writes; location-based histories for
+several objects in orders that differ from the stored row order (Database.getHistoriesByLocation / getHistoryByLocation,
+DatabaseInterface.getHistories / getHistory byLocation=True) and identity-based ones for the same lists vs
+`SnapStore.locHistories / dbHistoryByLoc / dbiHistoryByLoc / dbHistory`.
+Labelled snapshots: every (cycle, node, label) through every route that takes a label (Database.load, hasTimeStep,
+DatabaseInterface.loadState, Operator.loadState, a read-only Database and db.loadOperator on the closed file, a history over a
+labelled step) in the histories of tie (1); the EOL and the plain snapshot of the last node of every completed real run.
 Tie (4) restart runs: a completed run restarted from its database at every later (cycle, node) vs `fileAfterRun` with
 `opened = restartStore`.
 Tie (3) crash points (also on generated stacks: bystanders, flags, orders, with and without main): a real `Operator` with the real main + database interfaces and a fault
@@ -34,6 +41,9 @@ PARTIAL = ("PROVED on the model: write_refuses_overwrite, write_then_load, write
            "snapshots (writeP_storedValue: value-or-default whether or not the class-level assigned flag was set at the write; "
            "dbHistory_value / dbHistoryAll_value / dbiHistory_now / dbiHistory_past / blockHistoryVal_written; "
            "history_value_or_default over every sequence of assignments, clock changes and writes), "
+           "histories BY LOCATION (dbHistoryByLoc_value / _empty, writePL_location_value: the row of a location holds what the object "
+           "that sat there had; the batched call for several objects: mem_locRows, locGroup_lookup / _value / _empty, locRows_find, "
+           "locHistories_lookup = the per-location history whatever the order of the request and of the stored rows), "
            "merge_exact (start step present or absent), split_exact (attribute renumbered too), "
            "split_refused_unchanged / splitValid_iff / split_some_valid, "
            "db_between, crash_file_spec (for a restart run with the hypothesis that the merged history holds no error snapshot of the "
@@ -139,6 +149,24 @@ class RealHistory:
                     ctx.fail("overwrite-accepted", "a second write to the same (cycle,node,label) is refused",
                              {"ops": self.trace}, observed=nm)
                 self.shadow[nm] = dict(c=c, n=n, label=label, ac=c, an=n, p=p, k=k)
+                return "ok"
+            if kind == "delete":
+                # del db[(cycle, node, label)]: exactly that snapshot goes
+                _, c, n, label = op
+                nm = gname(c, n, label)
+                try:
+                    del self.db[(c, n, label or None)]
+                except KeyError:
+                    if nm in self.shadow:
+                        ctx.fail("delete-of-written-snapshot-fails", "a written snapshot can be deleted by its (cycle, node, label)",
+                                 {"ops": self.trace}, observed=nm)
+                    return "reject"
+                left = sorted(k for k in self.db.h5db.keys() if k[0] == "c" and k[1].isdigit())
+                want = sorted(k for k in self.shadow if k != nm)
+                if nm not in self.shadow or left != want:
+                    ctx.fail("delete-exact", "deleting (cycle, node, label) removes exactly that snapshot: every other one - also the other "
+                             "labels of the same node - stays", {"ops": self.trace, "deleted": nm}, observed=left, expected=want)
+                self.shadow = {k: v for k, v in self.shadow.items() if k in left}
                 return "ok"
             if kind == "has":
                 # Database.hasTimeStep(cycle, node, statePointName): one snapshot per (cycle, node, LABEL)
@@ -348,6 +376,8 @@ def op_request(op):
         return f"load {op[1]} {op[2]} {op[3] or '-'}"
     if k == "has":
         return f"has {op[1]} {op[2]} {op[3] or '-'}"
+    if k == "delete":
+        return f"delete {op[1]} {op[2]} {op[3] or '-'}"
     if k == "histlabel":
         return f"histlabel {op[1]} {op[2]} {op[3]} {op[4] or '-'}"
     if k == "steps":
@@ -383,8 +413,20 @@ def _labelled_routes():
     return ops
 
 
+def _delete_by_label():
+    """Deleting one of several snapshots of a node: only the (cycle, node, label) named goes."""
+    ops = [("open",), ("set", 0, 0, 1, 1), ("write", ""), ("set", 0, 1, 2, 2), ("write", ""), ("set", 0, 1, 5, 6), ("write", "EOL"),
+           ("set", 0, 1, 7, 8), ("write", "x1"), ("set", 0, 2, 9, 9),
+           ("delete", 0, 1, "EOL"), ("steps",), ("load", 0, 1, ""), ("load", 0, 1, "x1", "dbi"), ("load", 0, 1, "EOL", "op"),
+           ("delete", 0, 1, "EOL"), ("delete", 0, 1, ""), ("steps",), ("has", 0, 1, ""), ("has", 0, 1, "x1"), ("load", 0, 1, "x1", "op"),
+           ("load", 0, 1, "", "dbi"), ("history", BLOCK), ("delete", 0, 5, ""), ("file",), ("close", True), ("file",),
+           ("load", 0, 1, "x1", "readonly"), ("load", 0, 1, "", "readonly")]
+    return ops
+
+
 FIXED = [
     _labelled_routes(),
+    _delete_by_label(),
     # (former F13, repaired) stop step absent from the source, later steps present: only the earlier steps are copied
     [("open",), ("set", 0, 0, 1, 1), ("write", ""), ("set", 0, 2, 2, 2), ("write", ""), ("set", 1, 0, 3, 3), ("write", ""),
      ("merge", 0, 1), ("merge", 0, 2), ("merge", 1, 0), ("merge", 2, 0), ("steps",), ("close", True), ("file",)],
@@ -456,8 +498,13 @@ def gen_history(rng):
             x3 = rng.random()
             if x3 < 0.7:
                 ops.append(("load", cc, nn, lab, rng.choice(["db", "dbi", "op", "dbi", "op"])))
-            elif x3 < 0.85:
+            elif x3 < 0.82:
                 ops.append(("has", cc, nn, lab))
+            elif x3 < 0.88:
+                ops.append(("delete", cc, nn, lab))
+                if lab == "" and (cc, nn) in written and not big:
+                    written.remove((cc, nn))
+                labelled = [z for z in labelled if z != (cc, nn, lab)]
             else:
                 ops.append(("histlabel", rng.choice([BLOCK, CORE]), cc, nn, lab))
         elif x < 0.7:
@@ -1119,6 +1166,23 @@ def section_locations(ctx):
                         continue
                     ctx.count(f"locations: query {route}, {how}" + (", full history" if steps is None else ""))
                     asked = sorted(written) if steps is None else steps
+                    if route == "db-id":
+                        # the pseudo-parameter "location" of an identity-based history: where the OBJECT was at each step
+                        with common.quiet():
+                            hl = db.getHistories(comps, ["location"], steps)
+                        for x in comps:
+                            sn = int(x.p.serialNum)
+                            for st_ in asked:
+                                where = [L_ for L_, (s2, _) in shadow[st_][t].items() if s2 == sn]
+                                got = hl[x]["location"].get(st_)
+                                got = None if got is None else tuple(int(z) for z in got)
+                                if got != (where[0] if where else None):
+                                    ctx.fail("history-location-of-object-per-step", "the location history of an object gives, per step, where "
+                                             "THAT object was (nothing for a step at which it was not in the core)",
+                                             dict(case0, trace=list(trace), serial=sn, step=list(st_), **qcase),
+                                             observed=got, expected=where[0] if where else None)
+                                    break
+                        ctx.count("locations: 'location' history of several objects")
 
                     def fmt(h):
                         return ";".join(f"{pid}:[" + ",".join(f"({int(k[0])},{int(k[1])}):{int(v)}" for k, v in h[name].items()) + "]"
@@ -1232,6 +1296,73 @@ def section_moves(ctx):
             os.remove(f"mv{rd}.h5")
     model = lean_run("SnapStore", reqs)
     ctx.compare("SnapStore.history vs Database.getHistories after a move", cases, model, impl)
+
+
+def section_context(ctx):
+    """`with Database(name, "w") as db:` - the context-manager route to open / close: a block that ends normally leaves the file
+    in the working directory marked successful, a block left by an exception (ordinary or not) leaves it marked NOT successful,
+    with every snapshot written inside; a nested `with db:` does not close it early."""
+    import h5py
+    from armi.bookkeeping.db import Database
+
+    class Boom(Exception):
+        pass
+    reqs, impl, cases = [], [], []
+    with common.scratch_dir():
+        o, r = load_small()
+        b = r.core[0][0]
+        k = 0
+        for how in ("normal", "exception", "SystemExit", "KeyboardInterrupt", "nested", "nested-then-exception"):
+            k += 1
+            fn = f"cx{k}.h5"
+            wrote = []
+            raised = None
+
+            def put(d, c, n, v):
+                r.p.cycle, r.p.timeNode = c, n
+                b.p.power, r.core.p.keff = float(v), float(v + 1)
+                with common.quiet():
+                    d.writeToDB(r)
+                wrote.append((c, n, v))
+            try:
+                with Database(fn, "w") as d:
+                    d.writeInputsToDB(o.cs)
+                    put(d, 0, 0, 10 * k)
+                    if how.startswith("nested"):
+                        with d:
+                            put(d, 0, 1, 10 * k + 1)
+                        put(d, 0, 2, 10 * k + 2)          # still open after the inner block
+                    if how.endswith("exception"):
+                        raise Boom()
+                    if how == "SystemExit":
+                        raise SystemExit(3)
+                    if how == "KeyboardInterrupt":
+                        raise KeyboardInterrupt()
+            except (Boom, SystemExit, KeyboardInterrupt) as e:
+                raised = type(e).__name__
+            case = {"context_manager": how}
+            ok = raised is None
+            if not os.path.exists(fn):
+                ctx.fail("crash-file-missing" if not ok else "complete-run-file-missing", "the file is left in the working directory", case)
+                continue
+            with h5py.File(fn, "r") as f:
+                summ, succ = group_summary(f), bool(f.attrs["successfulCompletion"])
+            want = "[" + ",".join(f"{gname(c, n)}:{c}:{n}:{c}:{n}:[[{BLOCK},{v}],[{CORE},{v + 1}]]" for c, n, v in wrote) + "]"
+            if succ != ok:
+                ctx.fail("crash-file-marked-successful" if not ok else "complete-run-marked-successful",
+                         "a database closed by an exception is marked not successfully completed, one closed normally successful",
+                         case, observed=succ, expected=ok)
+            if summ != want:
+                ctx.fail("crash-file-snapshots", "the file holds every snapshot written before it was closed", case, observed=summ, expected=want)
+            reqs += ["reset", "open"] + [x for c, n, v in wrote for x in (f"set {c} {n} [[{BLOCK},{v}],[{CORE},{v + 1}]]", "write -")] \
+                + [f"close {tf(ok)}", "file"]
+            impl += ["ok", "ok"] + ["ok"] * (2 * len(wrote)) + ["ok", f"work=T success={tf(succ)} open=F {summ}"]
+            cases += [case] * (4 + 2 * len(wrote))
+            ctx.case(("context-manager", how))
+            ctx.count("context manager: block left " + ("normally" if ok else f"by {raised}"))
+            os.remove(fn)
+    model = lean_run("SnapStore", reqs)
+    ctx.compare("SnapStore.close vs `with Database(...)`", cases, model, impl)
 
 
 # --------------------------------------------------------------------------- (2b) identity across processes
@@ -1680,13 +1811,19 @@ def _stamp_class():
         """Stamps core.p.keff = offset + 100 * cycle + node at every node, before the database interface writes it."""
         name = "stamp"
 
-        def __init__(self, r, cs, off):
+        def __init__(self, r, cs, off, fail=None):
             super().__init__(r, cs)
-            self.off, self.calls = off, []
+            self.off, self.calls, self.fail = off, [], fail
 
         def interactEveryNode(self, c, n):
             self.r.core.p.keff = float(self.off + 100 * c + n)
             self.calls.append((int(c), int(n)))
+            if self.fail and len(self.calls) == self.fail[0]:
+                if self.fail[1] == "SystemExit":
+                    raise SystemExit(3)
+                if self.fail[1] == "KeyboardInterrupt":
+                    raise KeyboardInterrupt()
+                raise RuntimeError("injected failure")
     return Stamp
 
 
@@ -1701,7 +1838,8 @@ def _restart_job(job):
     """One real run of main + stamp + database: fresh (restart None) or restarted from `source` at (sc, sn)."""
     import h5py
     from armi.bookkeeping.db import Database
-    bs, detailed, coupling, off, source, restart = job
+    bs, detailed, coupling, off, source, restart = job[:6]
+    fail = job[6] if len(job) > 6 else None
     custom = dict(history_settings(bs, detailed), db=True, tightCoupling=coupling, tightCouplingMaxNumIters=1)
     if restart is not None:
         custom.update(reloadDBName=source, loadStyle="fromDB", startCycle=restart[0], startNode=restart[1])
@@ -1711,14 +1849,20 @@ def _restart_job(job):
         for i in list(o.interfaces):
             if i.name not in ("main", "database"):
                 o.removeInterface(i)
-        st = _stamp_class()(r, o.cs, off)
+        st = _stamp_class()(r, o.cs, off, fail)
         o.addInterface(st, index=1)
         fn = o.cs.caseTitle + ".h5"
         if os.path.exists(fn):
             os.remove(fn)
-        with common.quiet():
-            with o:
-                o.operate()
+        out["aborted"] = False
+        try:
+            with common.quiet():
+                with o:
+                    o.operate()
+        except (RuntimeError, SystemExit, KeyboardInterrupt) as e:
+            if not fail or (isinstance(e, RuntimeError) and "injected failure" not in str(e)):
+                raise
+            out["aborted"] = True
         out["calls"] = st.calls
         with h5py.File(fn, "r") as h:
             out["summary"] = group_summary(h, objs=("Core/keff",), ids=(0,))
@@ -1774,15 +1918,54 @@ def section_restart(ctx):
                 pts = [p_ for p_ in pts if p_ in keep]
             for pt in pts:
                 jobs.append((bs, detailed, coupling, 5000, f0[4], pt))
-                meta.append((bs, detailed, coupling, nodes, pt))
+                meta.append((bs, detailed, coupling, nodes, pt, None))
+            # the restarted run ABORTS at its K-th node (in an interface before the database writer): the file must hold the merged
+            # history, the nodes completed since, and the error snapshot - marked not successful
+            for pt in (pts if ctx.thorough else ctx.rng.sample(pts, min(2, len(pts)))):
+                later = [x for x in nodes if x >= pt]
+                K = ctx.rng.randint(1, len(later))
+                kind = ctx.rng.choice(ABORT_KINDS)
+                jobs.append((bs, detailed, coupling, 5000, f0[4], pt, (K, kind)))
+                meta.append((bs, detailed, coupling, nodes, pt, (K, kind)))
         results = run_generic_jobs(ctx, _restart_job, jobs, base)
     def rcfg(bs, detailed, coupling, bolset):
         stack = [{"id": i, "enabled": True, "bolForce": False, "reverse": False, "coupler": False} for i in (MAIN, STAMP, DBI)]
         return {"detailed": detailed, "nCycles": len(bs), "burnSteps": bs, "startCycle": 0, "startNode": 0, "stack": stack,
                 "deferred": [], "deferredCycle": 0, "coupling": coupling, "maxIters": 1, "skip": [], "halt": [], "conv": [],
                 "bolSet": bolset}
-    for (bs, detailed, coupling, nodes, pt), res in zip(meta, results):
+    # where in the model's schedule of the restarted run is the failing hook call?
+    crash_cfgs = [(i, rcfg(bs, detailed, coupling, [MAIN, pt[0], pt[1]])) for i, (bs, detailed, coupling, nodes, pt, fail) in enumerate(meta) if fail]
+    crash_idx = {}
+    if crash_cfgs:
+        for (i, cfg_), line in zip(crash_cfgs, lean_run("Schedule", [c15.run_request(c_) for _, c_ in crash_cfgs])):
+            ev = c15.parse_log(line)
+            hits = [j for j, e in enumerate(ev) if e[0] == "EveryNode" and e[1] == STAMP]
+            crash_idx[i] = hits[meta[i][5][0] - 1]
+    for mi, ((bs, detailed, coupling, nodes, pt, fail), res) in enumerate(zip(meta, results)):
         case = {"restart_shape": [bs, detailed, coupling], "restart": list(pt)}
+        if fail:
+            case["abort_at_node_call"], case["abort_kind"] = fail
+            ctx.case(("restart-crash", tuple(bs), detailed, coupling, pt, fail))
+            ctx.count(f"restart run aborted: {fail[1]}" + (", tight coupling" if coupling else ""))
+            if res["error"] or not res.get("aborted"):
+                ctx.fail("fault-not-raised" if not res["error"] else "restart-run-raises", "the injected failure propagates out of the run",
+                         case, observed=res["error"] or res.get("summary"))
+                continue
+            later = [x for x in nodes if x >= pt]
+            X = later[fail[0] - 1]
+            def line(c, n, off, label=""):
+                return f"{gname(c, n, label)}:{c}:{n}:{c}:{n}:[[0,{off + 100 * c + n}]]"
+            want = "[" + ",".join(sorted([line(c, n, 1000 if (c, n) < pt else 5000) for c, n in nodes if (c, n) < X]
+                                         + [line(X[0], X[1], 5000, "error")])) + "]"
+            if res["summary"] != want:
+                ctx.fail("crash-file-snapshots", "the file holds every snapshot completed before the failure (the merged history of a "
+                         "restart included) plus the state at the failure", case, observed=res["summary"], expected=want)
+            if res["success"]:
+                ctx.fail("crash-file-marked-successful", "the file of an aborted run is marked as not successfully completed", case)
+            reqs.append(f"restartc {crash_idx[mi]} 1000 5000 {pt[0]} {pt[1]} {MAIN} " + c15.run_request(rcfg(bs, detailed, coupling, None))[4:] + " "
+                        + c15.run_request(rcfg(bs, detailed, coupling, [MAIN, pt[0], pt[1]]))[4:])
+            impl.append(f"work=T success={tf(res['success'])} open=F {res['summary']}"); cases.append(case)
+            continue
         if not res["error"]:
             # model: SnapStore.fileAfterRun of the restarted run, opened with the history merged from the first run's file
             reqs.append(f"restart 1000 5000 {pt[0]} {pt[1]} {MAIN} " + c15.run_request(rcfg(bs, detailed, coupling, None))[4:] + " "
@@ -1838,10 +2021,13 @@ def run(ctx):
     section_locations(ctx)
     section_moves(ctx)
     section_serials(ctx)
+    section_context(ctx)
     section_crashes(ctx)
     section_restart(ctx)
     ctx.rule = ("(1) fixed + generated histories of open/set/write[label]/load/steps/history/merge/split/close on a real Database "
                 "(one case = one history; every op's answer compared with the stateful model and judged by the shadow-record oracle); "
+                "(1c) histories by location for several objects after swaps / removals (one case = one history); loads by label through "
+                "six routes inside (1); "
                 "(1b) forked-child histories in which never-assigned parameters become assigned at random steps, every step written, "
                 "histories requested over random subsets of steps x parameters through five entry points (one case = one history); "
                 "(4) a completed run restarted from its own database at every later node (one case = one restart run and its file); "
